@@ -16,6 +16,7 @@ CLAIMED={
  "C05":("Non-interference as sufficient condition, checked on the real code by symbolic execution: one Select/Evaluate call performs no store at all to shared state outside a sync lock, so every interleaving equals a sequential run; feasible witnesses are replayed from 4 goroutines under go test -race and only a reported race / differing result is a violation. Interleavings themselves are not explored.","concolic symbolic execution of go/ssa with shared-store + lockset monitor (non-interference); witnesses replayed under the race detector"),
  "C07":("Bounded symbolic model checking of comparison and boolean operators: L op R over all claimed operand-type combinations with symbolic doubles (incl. NaN, infinities, signed zeros), symbolic string bytes and node-sets over a symbolic document; per path z3 (FP+BV) decides result = XPath reference, and any panic leaving the comparison is a violation.","concolic symbolic execution of go/ssa + SMT (z3, FloatingPoint+BitVec) value obligation per path vs reference XPath semantics"),
  "C08":("Bounded symbolic model checking of arithmetic: expression trees over + - * div, unary minus, mod (stated domain), floor, ceiling, number(), count(), sum(), string-length(), string() with symbolic IEEE doubles and a symbolic document; per path z3 decides that the returned float64 is bit-for-bit the reference double (NaN class identified), and string() of NaN / integers below 10^6 is the plain decimal text.","concolic symbolic execution of go/ssa + SMT (z3, FloatingPoint+BitVec) value obligation per path vs reference XPath semantics"),
+ "C09":("Bounded symbolic model checking of the string functions: symbolic strings of every length up to L (free XML-legal ASCII bytes), numeric arguments (any finite double where one argument is involved, a case-split grid of quarter steps for substring start/length) and node-set arguments over a symbolic document; per path z3 decides result = XPath reference and that no fault/panic path is feasible.","concolic symbolic execution of go/ssa (std string helpers via validated Go models) + SMT (z3, BitVec bytes + FloatingPoint) value obligation per path vs reference XPath semantics"),
  "C11":("Bounded symbolic model checking: unions and sequence steps over all axes run symbolically over a symbolic document; per path z3 decides set equality with the reference union and the harness asserts each node once. An identity kernel runs the same code with element names / text values as free byte strings (FNV abstracted to equality of key bytes), so two different nodes sharing a key is found by the solver.",TECH),
  "C12":("Bounded symbolic model checking of iterator protocol and sequence relations: Select / Evaluate / count() / reverse() and a symbolic number of extra MoveNext calls on fresh compiles over one symbolic document; relations asserted on every explored path, set part decided by z3 against the reference.","concolic symbolic execution of go/ssa; sequence relations asserted per explored path, set obligation by SMT (z3)"),
  "C13":("Bounded symbolic model checking of metamorphic relations (absolute paths ignore the start node; relative paths compose with /node()[k]... addresses; P[true()], (P), P|P, not(not(P))): two real engine runs per symbolic path, relation asserted on every path, paths enumerated by z3.","concolic symbolic execution of go/ssa with SMT-decided path exploration; metamorphic relation asserted per path"),
